@@ -28,6 +28,101 @@ type c03Entry struct {
 	Hdr      *string `json:"hdr"`      // unprotected header likewise
 	SignAlg  string  `json:"signAlg"`  // algorithm the signature is really made with ("" = random bytes)
 	SignKind string  `json:"signKind"` // key kind whose material signs; "der:<kind>" = HMAC secret is the DER of that public key
+	// further members of the protected / unprotected header, written verbatim: unregistered names that
+	// are case or Unicode-fold variants of registered ones, and exact duplicates
+	ProtX []c03Member `json:"protX,omitempty"`
+	HdrX  []c03Member `json:"hdrX,omitempty"`
+}
+
+// c03Member is one extra header member: Name verbatim, Val a JSON text, placed before or after the
+// regular members.
+type c03Member struct {
+	Name  string `json:"name"`
+	Val   string `json:"val"`
+	After bool   `json:"after"`
+}
+
+func c03StrMember(name, val string, after bool) c03Member {
+	b, _ := json.Marshal(val)
+	return c03Member{Name: name, Val: string(b), After: after}
+}
+
+// c03ExactLast reads a header the way a JSON object is read (RFC 8259 / RFC 7515 §4: member names are
+// compared exactly; goat decodes into a Go map, where of duplicate members the last one stays):
+// the value of the last member named exactly `name`, if it is a JSON string.
+func c03ExactLast(members []c03Member, name string) string {
+	out := ""
+	for _, m := range members {
+		if m.Name == name {
+			var s string
+			if json.Unmarshal([]byte(m.Val), &s) == nil {
+				out = s
+			} else {
+				out = ""
+			}
+		}
+	}
+	return out
+}
+
+// c03HeaderMembers lays the members out in document order: extras placed before, the regular members,
+// extras placed after.
+func c03HeaderMembers(regular []c03Member, extras []c03Member) []c03Member {
+	var out []c03Member
+	for _, x := range extras {
+		if !x.After {
+			out = append(out, x)
+		}
+	}
+	out = append(out, regular...)
+	for _, x := range extras {
+		if x.After {
+			out = append(out, x)
+		}
+	}
+	return out
+}
+
+func c03WriteHeader(members []c03Member) []byte {
+	var b strings.Builder
+	b.WriteByte('{')
+	for i, m := range members {
+		if i > 0 {
+			b.WriteByte(',')
+		}
+		n, _ := json.Marshal(m.Name)
+		b.Write(n)
+		b.WriteByte(':')
+		b.WriteString(m.Val)
+	}
+	b.WriteByte('}')
+	return []byte(b.String())
+}
+
+func c03RegularMembers(alg, kid string) []c03Member {
+	var out []c03Member
+	if alg != "" {
+		out = append(out, c03StrMember("alg", alg, false))
+	}
+	if kid != "" {
+		out = append(out, c03StrMember("kid", kid, false))
+	}
+	return out
+}
+
+// members of the protected / unprotected header of an entry (nil: the header is absent)
+func (e c03Entry) protMembers(kid string) []c03Member {
+	if e.Prot == nil {
+		return nil
+	}
+	return c03HeaderMembers(c03RegularMembers(*e.Prot, kid), e.ProtX)
+}
+
+func (e c03Entry) hdrMembers(kid string) []c03Member {
+	if e.Hdr == nil {
+		return nil
+	}
+	return c03HeaderMembers(c03RegularMembers(*e.Hdr, kid), e.HdrX)
 }
 
 // c03Finder describes the caller's KeyFinder.
@@ -36,6 +131,36 @@ type c03Finder struct {
 	Kind string  `json:"kind,omitempty"`
 	Meta c03Meta `json:"meta"`
 	Alg  string  `json:"alg,omitempty"` // fixed: algorithm whose NewSigningKey is returned; "none-nil": none with the nil key
+	// Type "jwks" (jwt only): jwt.JWKSKeyFinder over c03JWKSKinds, the header's kid selects the key
+}
+
+// the JWK Set of the "jwks" finder: kid -> key kind
+var c03JWKSKids = []string{"k-hs256", "k-hs384", "k-hs512", "k-rsa", "k-p256", "k-p384", "k-p521", "k-k256", "k-ed"}
+var c03JWKSKinds = map[string]string{"k-hs256": "oct32", "k-hs384": "oct48", "k-hs512": "oct64", "k-rsa": "rsa2048-pub", "k-p256": "ec-P-256-pub",
+	"k-p384": "ec-P-384-pub", "k-p521": "ec-P-521-pub", "k-k256": "ec-secp256k1-pub", "k-ed": "ed25519-pub"}
+
+func c03KidForAlg(alg string) string {
+	switch alg {
+	case "HS256":
+		return "k-hs256"
+	case "HS384":
+		return "k-hs384"
+	case "HS512":
+		return "k-hs512"
+	case "RS256", "RS384", "RS512", "PS256", "PS384", "PS512":
+		return "k-rsa"
+	case "ES256":
+		return "k-p256"
+	case "ES384":
+		return "k-p384"
+	case "ES512":
+		return "k-p521"
+	case "ES256K":
+		return "k-k256"
+	case "EdDSA":
+		return "k-ed"
+	}
+	return "k-hs256"
 }
 
 func c03Ptr(s string) *string { return &s }
@@ -72,19 +197,11 @@ func c03EntrySignature(u *c03Universe, e c03Entry, input []byte, r *vf.Rand) []b
 	return r.Bytes(32)
 }
 
-func c03HeaderJSON(alg string, kid string) []byte {
-	m := map[string]any{"kid": kid}
-	if alg != "" {
-		m["alg"] = alg
-	}
-	b, _ := json.Marshal(m)
-	return b
-}
 
 // the verification key a finder holds, the algorithm it builds the key with for a given header alg
 func (f *c03Finder) algFor(hdrAlg string) string {
 	switch f.Type {
-	case "jwk":
+	case "jwk", "jwks":
 		return hdrAlg
 	case "fixed":
 		if f.Alg == "none-nil" {
@@ -99,6 +216,12 @@ func (f *c03Finder) wire(u *c03Universe) vf.Wire {
 	switch f.Type {
 	case "jwk":
 		return vf.Arr(vf.Str("jwk"), u.byName[f.Kind].keyWire(f.Meta))
+	case "jwks":
+		var ks []vf.Wire
+		for _, kid := range c03JWKSKids {
+			ks = append(ks, vf.Arr(vf.Str(kid), u.byName[c03JWKSKinds[kid]].keyWire(c03Meta{})))
+		}
+		return vf.Arr(vf.Str("jwks"), vf.Wire{Kind: vf.KArr, Arr: ks})
 	case "fixed":
 		if f.Alg == "none-nil" {
 			return vf.Arr(vf.Str("fixed"), vf.Arr(vf.Str("none")), vf.None())
@@ -146,6 +269,13 @@ func c03Allowed(cs c03Case, alg string) bool {
 	return false
 }
 
+func c03OptBytes(b []byte) vf.Wire {
+	if b == nil {
+		return vf.None()
+	}
+	return vf.Bytes(b)
+}
+
 func c03OptStr(p *string) vf.Wire {
 	if p == nil {
 		return vf.None()
@@ -154,15 +284,58 @@ func c03OptStr(p *string) vf.Wire {
 }
 
 // alg is the algorithm of an entry as RFC 7515 §7.2.1 lets it be carried: the protected header's
-// "alg" when present (non-empty), otherwise the unprotected header's; "" when neither has one.
+// "alg" when present (non-empty), otherwise the unprotected header's; "" when neither has one.  Each
+// header is read as a JSON object: exact member names, the last of duplicate members.
 func (e c03Entry) alg() string {
-	if e.Prot != nil && *e.Prot != "" {
-		return *e.Prot
+	if a := c03ExactLast(e.protMembers("x"), "alg"); a != "" {
+		return a
 	}
-	if e.Hdr != nil {
-		return *e.Hdr
+	return c03ExactLast(e.hdrMembers("x"), "alg")
+}
+
+// recording allow-list: which algorithm was the caller's verifier asked about, and what did it say?
+type c03AVLog struct {
+	asked   []string
+	allowed []bool
+}
+
+func (l *c03AVLog) record(alg string, err error) error {
+	l.asked = append(l.asked, alg)
+	l.allowed = append(l.allowed, err == nil)
+	return err
+}
+
+type c03RecJWSAV struct {
+	inner jws.AlgorithmVerifier
+	log   *c03AVLog
+}
+
+func (v c03RecJWSAV) VerifyAlgorithm(ctx context.Context, alg jwa.SignatureAlgorithm) error {
+	return v.log.record(string(alg), v.inner.VerifyAlgorithm(ctx, alg))
+}
+
+type c03RecJWTAV struct {
+	inner jwt.AlgorithmVerifier
+	log   *c03AVLog
+}
+
+func (v c03RecJWTAV) VerifyAlgorithm(ctx context.Context, alg jwa.SignatureAlgorithm) error {
+	return v.log.record(string(alg), v.inner.VerifyAlgorithm(ctx, alg))
+}
+
+// c03SameValue: the key finder must be consulted for exactly the algorithm the allow-list was last
+// asked about — and that answer must have been "allowed".
+func c03SameValue(c *vf.Ctx, cs c03Case, log *c03AVLog, finderAlg string) {
+	n := len(log.asked)
+	if n == 0 || !log.allowed[n-1] || log.asked[n-1] != finderAlg {
+		last := "(never asked)"
+		if n > 0 {
+			last = fmt.Sprintf("%q allowed=%v", log.asked[n-1], log.allowed[n-1])
+		}
+		c.Fail(vf.Violation{Kind: "property", Class: "c03-allowlist-after-keylookup",
+			What: fmt.Sprintf("the key finder is consulted for alg %q but the allow-list was asked about %s: the two decisions do not read the same header value", finderAlg, last),
+			Case: cs, Observed: fmt.Sprintf("allow-list asked %q, key finder given %q", log.asked, finderAlg), Required: "allow-list and key lookup see the same algorithm"})
 	}
-	return ""
 }
 
 func c03AnyNilProtected(es []c03Entry) bool {
@@ -187,6 +360,8 @@ func execC03Jws(c *vf.Ctx, d *vf.Driver, cs c03Case, r *vf.Rand) {
 	payload := c03b64.EncodeToString([]byte("c03 payload"))
 	type built struct {
 		rawProt string
+		protJS  []byte
+		hdrJS   []byte
 		input   []byte
 		sig     []byte
 	}
@@ -197,7 +372,11 @@ func execC03Jws(c *vf.Ctx, d *vf.Driver, cs c03Case, r *vf.Rand) {
 		kid := fmt.Sprintf("e%d", i)
 		b := built{}
 		if e.Prot != nil {
-			b.rawProt = c03b64.EncodeToString(c03HeaderJSON(*e.Prot, kid))
+			b.protJS = c03WriteHeader(e.protMembers(kid))
+			b.rawProt = c03b64.EncodeToString(b.protJS)
+		}
+		if e.Hdr != nil {
+			b.hdrJS = c03WriteHeader(e.hdrMembers(kid))
 		}
 		b.input = []byte(b.rawProt + "." + payload)
 		b.sig = c03EntrySignature(u, e, b.input, r)
@@ -207,7 +386,7 @@ func execC03Jws(c *vf.Ctx, d *vf.Driver, cs c03Case, r *vf.Rand) {
 			obj["protected"] = b.rawProt
 		}
 		if e.Hdr != nil {
-			obj["header"] = json.RawMessage(c03HeaderJSON(*e.Hdr, kid))
+			obj["header"] = json.RawMessage(b.hdrJS)
 		}
 		sigObjs = append(sigObjs, obj)
 	}
@@ -228,18 +407,24 @@ func execC03Jws(c *vf.Ctx, d *vf.Driver, cs c03Case, r *vf.Rand) {
 	}
 	key0 := fmt.Sprintf("jws/%s/%v/%v/%s", cs.Form, cs.Allow, cs.AllowAny, string(data))
 	if perr != nil {
+		// every generated header is a well-formed JSON object whose registered members are well-typed;
+		// unregistered members (whatever their spelling) must be ignored
 		c.Case(key0, false)
 		c.Count("jws:parse-error")
+		c.Fail(vf.Violation{Kind: "correspondence", Class: "c03-header-member-parse", What: "a JWS whose headers carry only well-formed members does not parse: " + perr.Error(), Case: cs,
+			Observed: perr.Error(), Required: "parsed"})
 		return
 	}
-	var av jws.AlgorithmVerifier = jws.UnsecureAnyAlgorithm
+	avlog := &c03AVLog{}
+	var av0 jws.AlgorithmVerifier = jws.UnsecureAnyAlgorithm
 	if !cs.AllowAny {
 		l := jws.AllowedAlgorithms{}
 		for _, a := range cs.Allow {
 			l = append(l, jwa.SignatureAlgorithm(a))
 		}
-		av = l
+		av0 = l
 	}
+	av := c03RecJWSAV{inner: av0, log: avlog}
 	// the finder, instrumented: which algorithms was it consulted for?
 	var consulted []string
 	var inner jws.KeyFinder
@@ -259,6 +444,7 @@ func execC03Jws(c *vf.Ctx, d *vf.Driver, cs c03Case, r *vf.Rand) {
 			a = string(h.Algorithm())
 		}
 		consulted = append(consulted, a)
+		c03SameValue(c, cs, avlog, a)
 		return inner.FindKey(ctx, p, h)
 	})
 	v := &jws.Verifier{AlgorithmVerifier: av, KeyFinder: finder}
@@ -280,8 +466,8 @@ func execC03Jws(c *vf.Ctx, d *vf.Driver, cs c03Case, r *vf.Rand) {
 
 	// model
 	ents := make([]vf.Wire, 0, len(cs.Entries))
-	for i, e := range cs.Entries {
-		ents = append(ents, vf.Arr(c03OptStr(e.Prot), c03OptStr(e.Hdr), vf.Int(int64(len(bs[i].sig)))))
+	for i := range cs.Entries {
+		ents = append(ents, vf.Arr(c03OptBytes(bs[i].protJS), c03OptBytes(bs[i].hdrJS), vf.Int(int64(len(bs[i].sig)))))
 	}
 	oracle := func(name string, args []vf.Wire) vf.Wire {
 		if name == "c03.prim.verify" && len(args) == 2 {
@@ -298,7 +484,7 @@ func execC03Jws(c *vf.Ctx, d *vf.Driver, cs c03Case, r *vf.Rand) {
 		}
 		return StdOracle(name, args)
 	}
-	res, err := d.Call("c03.jws", []vf.Wire{c03AvWire(cs), cs.Finder.wire(u), vf.Wire{Kind: vf.KArr, Arr: ents}}, oracle)
+	res, err := d.Call("c03.jwsraw", []vf.Wire{c03AvWire(cs), cs.Finder.wire(u), vf.Wire{Kind: vf.KArr, Arr: ents}}, oracle)
 	c.Case(key0, true)
 	c.TraceValidated()
 	if err != nil {
@@ -362,27 +548,41 @@ func execC03Jwt(c *vf.Ctx, d *vf.Driver, cs c03Case, r *vf.Rand) {
 		return
 	}
 	e := cs.Entries[0]
-	hdr := map[string]any{"typ": "JWT"}
-	if cs.HdrAlg != "" {
-		hdr["alg"] = cs.HdrAlg
+	members := c03HeaderMembers(append([]c03Member{c03StrMember("typ", "JWT", false)}, c03RegularMembers(cs.HdrAlg, cs.HdrKid)...), e.ProtX)
+	hb := c03WriteHeader(members)
+	// the header read as a JSON object: exact names, last duplicate
+	effAlg, effKid := c03ExactLast(members, "alg"), c03ExactLast(members, "kid")
+	fkind := cs.Finder.Kind // the kind of the key the finder holds / selects
+	if cs.Finder.Type == "jwks" {
+		fkind = c03JWKSKinds[effKid]
 	}
-	hb, _ := json.Marshal(hdr)
 	input := []byte(c03b64.EncodeToString(hb) + "." + c03b64.EncodeToString([]byte(`{"sub":"c03"}`)))
 	sg := c03EntrySignature(u, e, input, r)
 	token := append(append([]byte{}, input...), '.')
 	token = append(token, c03b64.EncodeToString(sg)...)
 
-	var av jwt.AlgorithmVerifier = jwt.UnsecureAnyAlgorithm
+	avlog := &c03AVLog{}
+	var av0 jwt.AlgorithmVerifier = jwt.UnsecureAnyAlgorithm
 	if !cs.AllowAny {
 		l := jwt.AllowedAlgorithms{}
 		for _, a := range cs.Allow {
 			l = append(l, jwa.SignatureAlgorithm(a))
 		}
-		av = l
+		av0 = l
 	}
+	av := c03RecJWTAV{inner: av0, log: avlog}
 	var consulted []string
 	var inner jwt.KeyFinder
 	switch cs.Finder.Type {
+	case "jwks":
+		set := &jwk.Set{}
+		for _, kid := range c03JWKSKids {
+			k := u.byName[c03JWKSKinds[kid]].jwkKey(c03Meta{})
+			k.SetKeyID(kid)
+			set.Keys = append(set.Keys, k)
+		}
+		jf := &jwt.JWKSKeyFinder{JWKS: set}
+		inner = jwt.FindKeyFunc(func(ctx context.Context, h *jws.Header) (sig.SigningKey, error) { return jf.FindKey(h) })
 	case "jwk":
 		kd := u.byName[cs.Finder.Kind]
 		key := kd.jwkKey(cs.Finder.Meta)
@@ -400,6 +600,7 @@ func execC03Jwt(c *vf.Ctx, d *vf.Driver, cs c03Case, r *vf.Rand) {
 	}
 	finder := jwt.FindKeyFunc(func(ctx context.Context, h *jws.Header) (sig.SigningKey, error) {
 		consulted = append(consulted, string(h.Algorithm()))
+		c03SameValue(c, cs, avlog, string(h.Algorithm()))
 		return inner.FindKey(ctx, h)
 	})
 	p := &jwt.Parser{KeyFinder: finder, AlgorithmVerifier: av, IssuerSubjectVerifier: jwt.UnsecureAnyIssuerSubject, AudienceVerifier: jwt.UnsecureAnyAudience}
@@ -409,16 +610,16 @@ func execC03Jwt(c *vf.Ctx, d *vf.Driver, cs c03Case, r *vf.Rand) {
 	})
 
 	// the algorithm the stock finder resolves to: the key's own alg when declared, else the header's
-	resolved := cs.HdrAlg
+	resolved := effAlg
 	if cs.Finder.Type == "jwk" && cs.Finder.Meta.Alg != "" {
 		resolved = cs.Finder.Meta.Alg
 	} else if cs.Finder.Type == "fixed" {
-		resolved = cs.Finder.algFor(cs.HdrAlg)
+		resolved = cs.Finder.algFor(effAlg)
 	}
 	oracle := func(name string, args []vf.Wire) vf.Wire {
 		if name == "c03.prim.verify" {
 			spec, ok := c03SigSpecByName(resolved)
-			kd := u.byName[cs.Finder.Kind]
+			kd := u.byName[fkind]
 			if !ok || kd == nil {
 				return vf.Bool(false)
 			}
@@ -426,8 +627,8 @@ func execC03Jwt(c *vf.Ctx, d *vf.Driver, cs c03Case, r *vf.Rand) {
 		}
 		return StdOracle(name, args)
 	}
-	res, err := d.Call("c03.jwt", []vf.Wire{c03AvWire(cs), cs.Finder.wire(u), vf.Str(cs.HdrAlg), vf.Int(int64(len(sg)))}, oracle)
-	key0 := fmt.Sprintf("jwt/%v/%v/%s/%+v/%s/%s", cs.Allow, cs.AllowAny, cs.HdrAlg, *cs.Finder, e.SignAlg, e.SignKind)
+	res, err := d.Call("c03.jwtraw", []vf.Wire{c03AvWire(cs), cs.Finder.wire(u), vf.Bytes(hb), vf.Int(int64(len(sg)))}, oracle)
+	key0 := fmt.Sprintf("jwt/%v/%v/%s/%+v/%s/%s", cs.Allow, cs.AllowAny, string(hb), *cs.Finder, e.SignAlg, e.SignKind)
 	c.Case(key0, true)
 	c.TraceValidated()
 	if err != nil {
@@ -453,19 +654,19 @@ func execC03Jwt(c *vf.Ctx, d *vf.Driver, cs c03Case, r *vf.Rand) {
 		}
 	}
 	if g.Tag == "ok" {
-		if !c03Allowed(cs, cs.HdrAlg) {
-			c.Fail(vf.Violation{Kind: "property", Class: "c03-alg-not-allowed-accepted", What: fmt.Sprintf("token with alg %q accepted although the caller did not allow it", cs.HdrAlg), Case: cs,
+		if !c03Allowed(cs, effAlg) {
+			c.Fail(vf.Violation{Kind: "property", Class: "c03-alg-not-allowed-accepted", What: fmt.Sprintf("token with alg %q accepted although the caller did not allow it", effAlg), Case: cs,
 				Observed: "ok", Required: "error"})
 		}
-		if cs.Finder.Type == "jwk" {
+		if cs.Finder.Type == "jwk" || cs.Finder.Type == "jwks" {
 			// key's own alg, when declared, equals the header's (or the header is silent)
-			if ka := cs.Finder.Meta.Alg; ka != "" && cs.HdrAlg != "" && ka != cs.HdrAlg {
-				c.Fail(vf.Violation{Kind: "property", Class: "c03-key-alg-mismatch-ignored", What: "token accepted although the key declares alg " + ka + " and the header says " + cs.HdrAlg, Case: cs,
+			if ka := cs.Finder.Meta.Alg; ka != "" && effAlg != "" && ka != effAlg {
+				c.Fail(vf.Violation{Kind: "property", Class: "c03-key-alg-mismatch-ignored", What: "token accepted although the key declares alg " + ka + " and the header says " + effAlg, Case: cs,
 					Observed: "ok", Required: "error"})
 			}
 			spec, ok := c03SigSpecByName(resolved)
-			kd := u.byName[cs.Finder.Kind]
-			if !ok || !c03SigMaterialOK(spec, kd, "verify") || !c03MetaPermits(cs.Finder.Meta, "verify") || !c03StdVerify(spec, kd.Priv, kd.Pub, input, sg) {
+			kd := u.byName[fkind]
+			if !ok || kd == nil || !c03SigMaterialOK(spec, kd, "verify") || !c03MetaPermits(cs.Finder.Meta, "verify") || !c03StdVerify(spec, kd.Priv, kd.Pub, input, sg) {
 				c.Fail(vf.Violation{Kind: "property", Class: "c03-jwt-key-binding", What: "token accepted with a key that does not belong to alg " + resolved, Case: cs, Observed: "ok", Required: "error"})
 			}
 		}
@@ -509,8 +710,136 @@ func c03OtherAlg(a string) string {
 	return "HS256"
 }
 
-func c03AllowCases(seed uint64, thorough bool) []c03Case {
+// spellings of header member names that are NOT the registered member: ASCII case variants,
+// Unicode simple-fold variants (U+212A KELVIN SIGN folds to k, U+017F LONG S folds to s), and — for
+// alg only — the exact name once more (a duplicate member)
+var c03AlgNameVariants = []string{"Alg", "ALG", "aLg", "alG", "alg"}
+var c03KidNameVariants = []string{"Kid", "KID", "\u212Aid", "kiD"}
+
+// c03BystanderMembers: unregistered variants of the other members that steer a JOSE decision; each
+// carries a value that would change the outcome if it were taken for the registered member.
+func c03BystanderMembers(after bool) []c03Member {
+	return []c03Member{
+		{Name: "Typ", Val: `"X"`, After: after},
+		{Name: "JWK", Val: `{"kty":"oct","k":"AAAAAAAAAAAAAAAAAAAAAAAAAAAAAAAAAAAAAAAAAAA"}`, After: after},
+		{Name: "jw\u212A", Val: `{"kty":"oct","k":"AAAA"}`, After: after},
+		{Name: "Jku", Val: `"https://attacker.example/jwks.json"`, After: after},
+		{Name: "j\u212Au", Val: `"https://attacker.example/jwks.json"`, After: after},
+		{Name: "X5c", Val: `["AAAA"]`, After: after},
+		{Name: "X5C", Val: `["AAAA"]`, After: after},
+		{Name: "Crit", Val: `["b64"]`, After: after},
+		{Name: "CRIT", Val: `["exp","unknown-extension"]`, After: after},
+		{Name: "B64", Val: `false`, After: after},
+		{Name: "b6\u0664", Val: `false`, After: after},
+	}
+}
+
+// c03MemberCases: the member-name spelling dimension.
+func c03MemberCases(seed uint64) []c03Case {
 	var out []c03Case
+	fix := func(ms []c03Member) []c03Member { // the \u escapes above are Go-source escapes of this generator
+		for i := range ms {
+			ms[i].Name = strings.NewReplacer("\\u212A", "\u212A", "\\u0664", "\u0664").Replace(ms[i].Name)
+		}
+		return ms
+	}
+	for _, a := range []string{"HS256", "HS512", "RS256", "RS512", "PS256", "ES256", "ES384", "EdDSA", "ES256K", "none"} {
+		signer, verifier, _, _ := c03KindsFor(a)
+		for _, b := range []string{"HS256", "RS256", "PS256", "none", "ES256"} {
+			if b == a {
+				continue
+			}
+			for _, name := range c03AlgNameVariants {
+				for _, after := range []bool{false, true} {
+					x := []c03Member{c03StrMember(name, b, after)}
+					eff := a // exact names, last duplicate
+					if name == "alg" && after {
+						eff = b
+					}
+					es, ev, _, _ := c03KindsFor(eff)
+					if eff == a {
+						es, ev = signer, verifier
+					}
+					signAlg := eff
+					for _, al := range [][]string{{a}, {b}, {a, b}, nil} {
+						allowAny := al == nil
+						// JWS: variant in the protected header (compact / flattened / general), in the unprotected
+						// header next to a protected alg, and in the unprotected header that alone carries alg
+						type fm struct {
+							form string
+							e    c03Entry
+						}
+						forms := []fm{
+							{"compact", c03Entry{Prot: c03Ptr(a), ProtX: x}},
+							{"flattened", c03Entry{Prot: c03Ptr(a), ProtX: x}},
+							{"general", c03Entry{Prot: c03Ptr(a), ProtX: x, Hdr: c03Ptr("")}},
+							{"general", c03Entry{Hdr: c03Ptr(a), HdrX: x}},
+							{"flattened", c03Entry{Prot: c03Ptr(""), Hdr: c03Ptr(a), HdrX: x}},
+						}
+						if name != "alg" {
+							forms = append(forms, fm{"general", c03Entry{Prot: c03Ptr(a), Hdr: c03Ptr(""), HdrX: x}})
+						}
+						for _, f := range forms {
+							e := f.e
+							e.SignAlg, e.SignKind = signAlg, es
+							for _, fd := range []c03Finder{{Type: "jwk", Kind: ev}, {Type: "fixed", Alg: "none-nil"}} {
+								ff := fd
+								ee := e
+								if ff.Type == "fixed" {
+									ee.SignAlg = "none"
+								}
+								out = append(out, c03Case{Dim: "jws", Allow: al, AllowAny: allowAny, Finder: &ff, Entries: []c03Entry{ee}, Form: f.form, Seed: seed})
+							}
+						}
+						// JWT: stock JWK finder (key without and with its own alg), JWKS finder, none finder
+						for _, fd := range []c03Finder{{Type: "jwk", Kind: ev}, {Type: "jwk", Kind: ev, Meta: c03Meta{Alg: eff}}, {Type: "jwks"}, {Type: "fixed", Alg: "none-nil"}} {
+							ff := fd
+							e := c03Entry{SignAlg: signAlg, SignKind: es, ProtX: x}
+							if ff.Type == "fixed" {
+								e.SignAlg = "none"
+							}
+							cs := c03Case{Dim: "jwt", Allow: al, AllowAny: allowAny, Finder: &ff, HdrAlg: a, Entries: []c03Entry{e}, Seed: seed}
+							if ff.Type == "jwks" {
+								cs.HdrKid = c03KidForAlg(eff)
+							}
+							out = append(out, cs)
+						}
+					}
+				}
+			}
+		}
+		// kid variants (JWKS finder: the variant names another key) and the bystander members
+		for _, after := range []bool{false, true} {
+			for _, name := range c03KidNameVariants {
+				other := "k-rsa"
+				if c03KidForAlg(a) == other {
+					other = "k-hs256"
+				}
+				x := fix([]c03Member{c03StrMember(name, other, after)})
+				out = append(out, c03Case{Dim: "jwt", Allow: []string{a}, Finder: &c03Finder{Type: "jwks"}, HdrAlg: a, HdrKid: c03KidForAlg(a),
+					Entries: []c03Entry{{SignAlg: a, SignKind: signer, ProtX: x}}, Seed: seed})
+				// JWS: two signatures, the variant kid of each names the other entry
+				x0 := fix([]c03Member{c03StrMember(name, "e1", after)})
+				x1 := fix([]c03Member{c03StrMember(name, "e0", after)})
+				out = append(out, c03Case{Dim: "jws", Allow: []string{a}, Finder: &c03Finder{Type: "jwk", Kind: verifier}, Form: "general", Seed: seed,
+					Entries: []c03Entry{{Prot: c03Ptr(a), SignAlg: "", ProtX: x0}, {Prot: c03Ptr(a), SignAlg: a, SignKind: signer, ProtX: x1}}})
+			}
+			by := fix(c03BystanderMembers(after))
+			for _, form := range []string{"compact", "flattened", "general"} {
+				out = append(out, c03Case{Dim: "jws", Allow: []string{a}, Finder: &c03Finder{Type: "jwk", Kind: verifier}, Form: form, Seed: seed,
+					Entries: []c03Entry{{Prot: c03Ptr(a), SignAlg: a, SignKind: signer, ProtX: by}}})
+			}
+			out = append(out, c03Case{Dim: "jws", Allow: []string{a}, Finder: &c03Finder{Type: "jwk", Kind: verifier}, Form: "general", Seed: seed,
+				Entries: []c03Entry{{Prot: c03Ptr(a), Hdr: c03Ptr(""), SignAlg: a, SignKind: signer, HdrX: by}}})
+			out = append(out, c03Case{Dim: "jwt", Allow: []string{a}, Finder: &c03Finder{Type: "jwk", Kind: verifier}, HdrAlg: a,
+				Entries: []c03Entry{{SignAlg: a, SignKind: signer, ProtX: by}}, Seed: seed})
+		}
+	}
+	return out
+}
+
+func c03AllowCases(seed uint64, thorough bool) []c03Case {
+	out := c03MemberCases(seed)
 	type allow struct {
 		l   []string
 		any bool
